@@ -74,7 +74,7 @@ def main(argv=None):
         out.write_text(json.dumps(table, indent=0, sort_keys=True))
         from .loader import local_bindings
 
-        ltable = {f.key: local_bindings(f.node) for f in t.nontest_funcs()}
+        ltable = {f.key: local_bindings(f.node, defs=True) for f in t.nontest_funcs()}
         ltable = {k: v for k, v in ltable.items() if v}
         out.with_name("local_names.json").write_text(json.dumps(ltable, sort_keys=True))
         print(f"pinned parameter names of {len(table)} functions")
